@@ -4,7 +4,7 @@ import sites
 import contracts
 from mirlite import callee, callee_res, ty_str, op_place
 from expr import show, walk, strip_ref
-from discharge import (make_prover, check_site, accumulator_ok, unwrap_of_decode_ok, CONTRACTED, INDEX, Lin, len_of)
+from discharge import (make_prover, check_site, accumulator_ok, unwrap_of_decode_ok, CONTRACTED, INDEX, SPLIT_AT, Lin, len_of)
 
 LEVEL = "proof"
 EXPLANATION = (
@@ -188,6 +188,10 @@ def strict_suffix(pr, e, crates, depth=0):
             r = pr.lin_interval(pr.lin(rng[2][0]))
             return bool(r and r[0] >= 1) and contracts.suffix_of_param(pr, e[2][0])
         return False
+    if e[0] == "proj" and e[1][0] == "call" and e[1][1] in SPLIT_AT and tuple(e[2]) == ("1",):
+        # s.split_at(m).1 == s[m..]
+        r = pr.lin_interval(pr.lin(e[1][2][1]))
+        return bool(r and r[0] >= 1) and contracts.suffix_of_param(pr, e[1][2][0])
     if e[0] == "proj" and e[1][0] == "call" and e[1][1] in CONTRACTED and tuple(e[2]) == ("@Ok", "0", "1"):
         if not contracts.suffix_of_param(pr, e[1][2][0]):
             return False
